@@ -6,6 +6,7 @@ from .. import replay as rp
 from .. import oracles as O
 from .setops import bits_for, fnr, decode_ab, prog_ab, built
 
+from ..validate import validation_group
 BOUNDS = {'quick': {'single interval': 'concrete order, identifier lists <= 1, components full u64 <= MAX_SAFE_INTEGER', 'ranges': '1..2 alternatives, hybrid mode (identifiers abstract)'},
           'thorough': {'single interval': 'identifier lists <= 3', 'ranges': '1..3 alternatives'}}
 OUTSIDE = ['which comparator texts produce which bounds (parser; the generated -0 bounds are covered structurally under C01)', 'identifier lists longer than the bound in the concrete groups']
@@ -22,6 +23,7 @@ def groups(tier):
         gs.append({'name': 'interval-L1', 'fn': interval_group, 'args': {'L': 1}})
     for k in range(1, K + 1):
         gs.append({'name': 'range-%d' % k, 'fn': range_group, 'args': {'k': k}})
+    gs.append(validation_group(('satisfies',), tier))
     return gs
 
 
